@@ -160,7 +160,18 @@ func c08GenValue(t *rapid.T, key string, lists bool) any {
 	return l
 }
 
-func c08GenMeta(t *rapid.T, min int, lists bool) map[string]any {
+// c08Twin: in a "twin" case one key keeps receiving the SAME literal in its different representations
+// (the string "10", the number 10, a list holding "10") on different vectors, so that the posting list and
+// the number index of that literal are populated at the same time.
+type c08Twin struct {
+	Key string
+	Str string
+	Val any // float64 or bool
+}
+
+var c08Twins = []c08Twin{{Str: "10", Val: 10.0}, {Str: "2.5", Val: 2.5}, {Str: "true", Val: true}, {Str: "0", Val: 0.0}}
+
+func c08GenMeta(t *rapid.T, min int, lists bool, twin *c08Twin) map[string]any {
 	n := rapid.SampledFrom([]int{0, 1, 2, 2, 3, 3, 4}).Draw(t, "nkeys")
 	if n < min {
 		n = min
@@ -168,6 +179,21 @@ func c08GenMeta(t *rapid.T, min int, lists bool) map[string]any {
 	m := map[string]any{}
 	for i := 0; i < n; i++ {
 		k := rapid.SampledFrom(c08Keys).Draw(t, "key")
+		if twin != nil && (i == 0 || k == twin.Key) && rapid.IntRange(0, 99).Draw(t, "twinval") < 60 {
+			k = twin.Key
+			switch rapid.IntRange(0, 4).Draw(t, "twinrep") {
+			case 0, 1:
+				m[k] = twin.Str
+			case 2, 3:
+				m[k] = twin.Val
+			default:
+				m[k] = twin.Str
+				if lists {
+					m[k] = []any{twin.Str}
+				}
+			}
+			continue
+		}
 		m[k] = c08GenValue(t, k, lists)
 	}
 	return m
@@ -375,6 +401,15 @@ func c08GenCase() *rapid.Generator[c08Case] {
 	return rapid.Custom(func(t *rapid.T) c08Case {
 		var c c08Case
 		lists := rapid.IntRange(0, 9).Draw(t, "lists") >= 5 // list-valued fields in about half of the cases
+		var twin *c08Twin
+		if rapid.IntRange(0, 3).Draw(t, "twincase") == 0 {
+			tw := c08Twins[rapid.IntRange(0, len(c08Twins)-1).Draw(t, "twin")]
+			tw.Key = rapid.SampledFrom(c08Keys).Draw(t, "twinkey")
+			if tw.Key == "tags" && !lists {
+				tw.Key = "mix"
+			}
+			twin = &tw
+		}
 		kinds := []string{"add", "add", "add", "add", "set", "set", "set", "set", "set", "del", "del", "vacuum", "snapshot", "rewrite", "compress", "restart", "restart"}
 		rawOp := rapid.Custom(func(t *rapid.T) c08Raw {
 			r := c08Raw{K: rapid.SampledFrom(kinds).Draw(t, "opkind")}
@@ -382,17 +417,17 @@ func c08GenCase() *rapid.Generator[c08Case] {
 			case "add":
 				r.Pick = rapid.IntRange(0, 23).Draw(t, "pick")
 				r.Vec = c08GenVec(t)
-				r.Meta = c08GenMeta(t, 0, lists)
+				r.Meta = c08GenMeta(t, 0, lists, twin)
 			case "set":
 				r.Pick = rapid.IntRange(0, 23).Draw(t, "pick")
-				r.Meta = c08GenMeta(t, 1, lists)
+				r.Meta = c08GenMeta(t, 1, lists, twin)
 			case "del":
 				r.Pick = rapid.IntRange(0, 23).Draw(t, "pick")
 			}
 			return r
 		})
 		addOp := rapid.Custom(func(t *rapid.T) c08Raw {
-			return c08Raw{K: "add", Pick: rapid.IntRange(0, 23).Draw(t, "pick"), Vec: c08GenVec(t), Meta: c08GenMeta(t, 1, lists)}
+			return c08Raw{K: "add", Pick: rapid.IntRange(0, 23).Draw(t, "pick"), Vec: c08GenVec(t), Meta: c08GenMeta(t, 1, lists, twin)}
 		})
 		raw := rapid.SliceOfN(addOp, 2, 8).Draw(t, "init") // something to select from
 		raw = append(raw, rapid.SliceOfN(rawOp, 3, 24).Draw(t, "ops")...)
@@ -422,6 +457,13 @@ func c08GenCase() *rapid.Generator[c08Case] {
 			}
 		})
 		c.Filters = rapid.SliceOfN(filter, 1, 4).Draw(t, "filters")
+		if twin != nil {
+			// a twin case always asks about the twin literal itself, bare or quoted, positively or negatively
+			cl := c08Clause{Key: twin.Key, Lit: twin.Str, Sp: rapid.IntRange(0, 3).Draw(t, "twinsp"),
+				Op: rapid.SampledFrom([]string{"!=", "!=", "="}).Draw(t, "twinop"),
+				Q:  rapid.SampledFrom([]string{"", "", "'"}).Draw(t, "twinq")}
+			c.Filters = append([]c08Filter{{Blocks: [][]c08Clause{{cl}}, And: "AND", Or: "OR"}}, c.Filters...)
+		}
 		c.Query = c08GenVec(t)
 		c.Query[0] += 0.5 // never the zero vector
 		c.GoInt = rapid.IntRange(0, 19).Draw(t, "goint") == 7
